@@ -25,7 +25,7 @@ func TestUpgrade(t *testing.T) {
 		if h.Thorough() {
 			n = 2500
 		}
-		modes := []string{"normal", "normal", "slowWS", "refused", "stalled", "cutHandshake", "cutProbe", "normal", "slowWS"}
+		modes := []string{"normal", "manySenders", "slowWS", "refused", "stalled", "cutHandshake", "cutProbe", "normal", "slowWS", "manySenders"}
 		for i := 0; i < n; i++ {
 			upgradeScenario(t, h, modes[i%len(modes)], i)
 		}
@@ -214,6 +214,13 @@ func upgradeScenario(t *testing.T, h *H, mode string, idx int) {
 		wg.Add(2)
 		go sender(func(ps ...*eioparser.Packet) { srvSock.Send(ps...) }, &sSent, h.R.Next())
 		go sender(func(ps ...*eioparser.Packet) { cli.Send(ps...) }, &cSent, h.R.Next())
+		if mode == "manySenders" {
+			// many client goroutines blocked in Send at the moment of the swap: whatever they send must follow the UPGRADE packet
+			for k := 0; k < 96; k++ {
+				wg.Add(1)
+				go sender(func(ps ...*eioparser.Packet) { cli.Send(ps...) }, &cSent, h.R.Next())
+			}
+		}
 		// a burst fired exactly from the UpgradeDone callback
 		go func() {
 			select {
@@ -230,7 +237,9 @@ func upgradeScenario(t *testing.T, h *H, mode string, idx int) {
 			}
 		}()
 		time.Sleep(time.Duration(200+h.R.Intn(400)) * time.Millisecond)
-		if realTime {
+		if mode == "manySenders" {
+			// nothing more: the senders stop after a few hundred virtual milliseconds
+		} else if realTime {
 			time.Sleep(3 * time.Second) // past the upgrade timeout and past the slowest POST
 		} else if mode == "slowWS" {
 			time.Sleep(4 * time.Second) // the upgrade completes, several heartbeats pass
@@ -293,13 +302,13 @@ func upgradeScenario(t *testing.T, h *H, mode string, idx int) {
 	if cliClosed != "" && cliClosed != string(eio.ReasonForcedClose) {
 		h.Violation("C07", "the connection does not survive an upgrade attempt", desc, fmt.Sprintf("client closed with %q, errors %v", cliClosed, cliErrors))
 	}
-	if (mode == "normal" || mode == "slowWS") && (!upgraded || srvTransport != "websocket" || cliTransport != "websocket") {
+	if (mode == "normal" || mode == "slowWS" || mode == "manySenders") && (!upgraded || srvTransport != "websocket" || cliTransport != "websocket") {
 		h.Violation("C07", "an unobstructed upgrade does not complete", desc, fmt.Sprintf("server on %s, client on %s", srvTransport, cliTransport))
 	}
 	if mode == "slowPost" && (srvTransport != cliTransport || upgraded != (cliTransport == "websocket")) {
 		h.Violation("C07", "after an upgrade attempt the two sides are not on the same transport", desc, fmt.Sprintf("server on %s, client on %s, UpgradeDone reported=%v; client closed=%q errors=%v", srvTransport, cliTransport, upgraded, cliClosed, cliErrors))
 	}
-	if mode != "normal" && mode != "slowWS" && mode != "cutProbe" && mode != "slowPost" && (upgraded || srvTransport != "polling" || cliTransport != "polling") {
+	if mode != "normal" && mode != "manySenders" && mode != "slowWS" && mode != "cutProbe" && mode != "slowPost" && (upgraded || srvTransport != "polling" || cliTransport != "polling") {
 		h.Violation("C07", "a failed upgrade attempt does not leave the connection on its original transport", desc, fmt.Sprintf("server on %s, client on %s", srvTransport, cliTransport))
 	}
 	// model line (multiset of deliveries and final transports for this amount of traffic around the swap)
